@@ -460,6 +460,46 @@ func c13Rmval(fs *Facts) {
 	eb, cv := f.Func("", "elementBytes"), f.Func("", "canonicalValue")
 	helpers := eb != nil && cv != nil && f.Contains(eb.Body, "item.Serialize(orig)") && f.Contains(eb.Body, "canonicalValue(") &&
 		f.Contains(cv.Body, "Parse(raw)") && f.Contains(cv.Body, "skel.Serialize(raw)") && f.Contains(cv.Body, "isMapCode(raw[0]) || isArrayCode(raw[0])")
+	// first match only: the loop holds `if bytes.Equal(·, ·) { cur.Target.ArrayItems = append(…[:i], …[i+1:]...); return nil }`
+	// (read from the syntax tree: the condition is the call itself, not a negation; the body removes index i and returns)
+	first := false
+	for _, st := range loop.Body.List {
+		is, ok := st.(*ast.IfStmt)
+		if !ok || is.Init != nil || is.Else != nil || len(is.Body.List) != 2 {
+			continue
+		}
+		call, ok := is.Cond.(*ast.CallExpr)
+		if !ok || f.Str(call.Fun) != "bytes.Equal" {
+			continue
+		}
+		as, ok1 := is.Body.List[0].(*ast.AssignStmt)
+		ret, ok2 := is.Body.List[1].(*ast.ReturnStmt)
+		key, ok3 := loop.Key.(*ast.Ident)
+		if !ok1 || !ok2 || !ok3 || len(as.Lhs) != 1 || len(as.Rhs) != 1 || len(ret.Results) != 1 || f.Str(ret.Results[0]) != "nil" {
+			continue
+		}
+		i := key.Name
+		if f.Str(as.Lhs[0]) == "cur.Target.ArrayItems" && as.Tok == token.ASSIGN &&
+			strings.Join(strings.Fields(f.Str(as.Rhs[0])), "") == "append(cur.Target.ArrayItems[:"+i+"],cur.Target.ArrayItems["+i+"+1:]...)" {
+			first = true
+		}
+	}
+	// nothing else in the function touches the item list
+	assigns := 0
+	ast.Inspect(fd.Body, func(n ast.Node) bool {
+		if as, ok := n.(*ast.AssignStmt); ok {
+			for _, l := range as.Lhs {
+				if f.Str(l) == "cur.Target.ArrayItems" {
+					assigns++
+				}
+			}
+		}
+		return true
+	})
+	if !first || assigns != 1 {
+		fs.Enum(name, "unknown", where)
+		return
+	}
 	switch {
 	case skips && rawCmp && !canonCmp:
 		fs.Enum(name, "scalarBytes", where)
